@@ -54,7 +54,7 @@ CONFIG_D = """features:
   supports_tls_client_certs: false
   supports_message_receive_limit: false
 """
-SUITE_PATTERNS = {"A": ["Basic/**"], "B": ["Basic/**", "TLS Client Certs/**", "Connect with GET/**"], "C": ["Basic/**"]}
+SUITE_PATTERNS = {"A": ["Basic/**", "Connect Unexpected Requests/**", "gRPC Unexpected Requests/**", "gRPC-Web Unexpected Requests/**", "Server Empty Requests/**"], "B": ["Basic/**", "TLS Client Certs/**", "Connect with GET/**"], "C": ["Basic/**"]}
 
 
 def wildcard(rnd, name):
@@ -307,12 +307,81 @@ def server_leaves_run(ctx, bins, peer, rid, exit_code, die_ms, stats, known_fail
         ctx.add_violation(prefix + "/run-succeeds-although-server-left/status-%d%s" % (exit_code, "/all-known-failing" if known_failing else ""), "the run exits 0 although server %s left in the middle of its batch (%d of its %d permutations were never handed to a client)" % (key, len(names) - len(seen), len(names)), w)
 
 
+def stubborn_servers_run(ctx, bins, peer, max_servers, stats):
+    """Helper servers that ignore the stop request: the runner must end them itself before it frees their
+    --max-servers slot. Observed by sampling /proc for the logged server pids while the runner runs."""
+    import threading, time
+    d = os.path.join(ctx.W, "c05-stubborn-%d" % max_servers)
+    os.makedirs(d, exist_ok=True)
+    confp = os.path.join(d, "conf.yaml")
+    open(confp, "w").write(CONFIGS["A"])
+    evp = os.path.join(d, "events.jsonl")
+    run = ["Basic/HTTPVersion:1/**"]
+    script = {"default": "canned", "probe": False, "seed": ctx.seed, "mode": "logging", "ignore_sigterm": True}
+    args = ["-v", "--conf", confp, "--mode", "both", "--max-servers", str(max_servers), "--run", run[0], "--", peer, "client", "----", peer, "server"]
+    env = {"VERIF_EVENTLOG": evp, "VERIF_PEER_SCRIPT": json.dumps(script)}
+    stop = threading.Event()
+    peak = {"n": 0, "samples": 0, "pids": set()}
+
+    def alive(pid):
+        try:
+            st = open("/proc/%d/stat" % pid).read()
+            return st.rsplit(")", 1)[1].split()[0] != "Z"
+        except OSError:
+            return False
+
+    def sampler():
+        while not stop.is_set():
+            pids = set()
+            if os.path.exists(evp):
+                for e in load_events(evp):
+                    if e["ev"] == "server_ready":
+                        pids.add(e["pid"])
+            peak["pids"] |= pids
+            n = sum(1 for p in pids if alive(p))
+            peak["n"] = max(peak["n"], n)
+            peak["samples"] += 1
+            time.sleep(0.05)
+
+    th = threading.Thread(target=sampler)
+    th.start()
+    try:
+        rc, to, text = e2e.run_runner(ctx, bins, args, "c05-stubborn-%d" % max_servers, timeout=600, env=env, race_label="c05-stubborn-%d" % max_servers)
+    finally:
+        stop.set()
+        th.join()
+    evs = load_events(evp)
+    pids = sorted({e["pid"] for e in evs if e["ev"] == "server_ready"})
+    ignored = [e for e in evs if e["ev"] == "server_stop_signal" and e.get("ignored")]
+    w = {"scenario": "every helper server ignores SIGTERM; --max-servers %d" % max_servers, "argv": " ".join(args), "exit": rc, "servers_started": len(pids), "stop_requests_ignored": len(ignored),
+         "peak_alive_sampled": peak["n"], "samples": peak["samples"], "output_tail": text[-800:]}
+    stats.setdefault("stubborn", []).append({k: w[k] for k in ("scenario", "servers_started", "stop_requests_ignored", "peak_alive_sampled", "samples")})
+    if to:
+        ctx.add_violation("c05/not-terminating/stubborn-servers", "the run did not terminate within the progress bound", w)
+    left = [p for p in pids if alive(p)]
+    for p in left:
+        try:
+            os.kill(p, 9)
+        except OSError:
+            pass
+    if len(pids) < 2 or not ignored:
+        ctx.inconclusive.append("c05 stubborn-servers: the scenario did not take place (%d servers, %d ignored stop requests)" % (len(pids), len(ignored)))
+        return
+    stats["stubborn_decided"] = stats.get("stubborn_decided", 0) + 1
+    if left:
+        ctx.add_violation("c05/server-outlives-the-run", "%d of %d started server processes were still alive after the runner had exited (they ignore SIGTERM; the runner has to end them)" % (len(left), len(pids)), w)
+    if peak["n"] > max_servers:
+        ctx.add_violation("c05/too-many-servers/stubborn", "%d server processes were observed alive at the same moment with --max-servers %d" % (peak["n"], max_servers), w)
+
+
 def run(ctx, bins, peer, tier):
     rnd = random.Random(ctx.seed * 7919 + 1)
     stats = {}
     ctx.extra["c05"] = stats
     for j, (code, ms) in enumerate([(0, 150), (1, 150)] if tier == "quick" else [(0, 100), (1, 100), (0, 300), (3, 300), (0, 20), (0, 600)]):
         server_leaves_run(ctx, bins, peer, j, code, ms, stats)
+    for ms_ in ((2,) if tier == "quick" else (1, 2, 3)):
+        stubborn_servers_run(ctx, bins, peer, ms_, stats)
     nruns = 18 if tier == "quick" else 150
     plans = []
     for i in range(nruns):
